@@ -86,3 +86,11 @@ def rules(t):
     shared.share(t, out, "C02.h", "the receiver never acknowledges a packet it did not receive: pending_acks changes only by adding the received sequence, merging exactly adjacent ranges or trimming", "C01", ("C01.j",))
     shared.share(t, out, "C02.i", "every message of an acknowledged packet reaches the receive channel: nothing is narrowed on the wire except a message count to a width holding SLICE_SIZE", "C01", ("C01.k",))
     return out
+
+_rules_c02_w5c = rules
+def rules(t):
+    import rules.wave5 as W5
+    out = _rules_c02_w5c(t)
+    out.append(W5.slice_scan_all(t, "C02.j"))
+    out.append(W5.ordered_flag(t, "C02.k"))
+    return out
